@@ -94,7 +94,7 @@ func c01Judge(cs *core.Case, ob *Obs, lc core.LocalCounts) {
 func runC01(ctx *core.Ctx) {
 	ctx.Rule = "random builder-call histories x (noisy generated documents | corpus mutants | verbatim historical vectors), all five entry-point variants rotated; plus every string of exactly L lexical pieces (22-piece alphabet) against 7 fixed policy families (exhaustive for L); oracle = re-tokenise + ParseFragment in 8 contexts against the shadow policy + tag-subsequence alignment; non-trivial = input contains '<' and output is non-empty, distinct by (policy, input)"
 	ctx.Assume("x/net/html v0.26.0 is the HTML5 tokenizer / tree builder of the property", "elements the tree builder implies (html head body tbody tr colgroup) are not judged", "AllowUnsafe is never called")
-	docWorkload(ctx, spec.GenOpts{Styles: true, NoDefaultCSS: false}, ctx.N(2000, 12000), ctx.N(150, 300), ctx.N(3, 4), familyOrder, nil, c01Judge)
+	docWorkload(ctx, spec.GenOpts{Styles: true, NoDefaultCSS: false}, ctx.N(2000, 30000), ctx.N(150, 300), ctx.N(3, 4), familyOrder, nil, c01Judge)
 	if ctx.Quick() {
 		piecesWorkload(ctx, 4, []string{"pattern-everything", "rawtext"}, c01Judge)
 	} else {
